@@ -96,3 +96,11 @@ Proof.
   apply RT_obj; [reflexivity|intros; reflexivity|].
   repeat constructor; cbn; auto; try (intros; reflexivity).
 Qed.
+
+From Cty Require Import RawRefl RawEq.
+
+(* "an identity transformation returns an equal value": in the property's own terms (RawEquals), at every depth *)
+Theorem C19_identity_transform_raw_equal : forall norm unk t p, RT norm unk t p -> wf_ty t = true ->
+  exists r, transform norm (fun _ x => Ok x) (V t p) = Ok r /\ raw_equals r (V t p) = Ok true.
+Proof. exact identity_transform_raw_equal. Qed.
+Print Assumptions C19_identity_transform_raw_equal.
